@@ -1,3 +1,157 @@
+(* C51 — Parallel helpers process every item exactly once.
+   Only statements here; every proof is [exact <lemma of Proofs*.v>].
+   Models (Model.v): InOrderIter (sequential, exact); in_parallel_with_slice, in_parallel /
+   in_parallel_with_finalize / Stepwise as interleaving semantics ([sl_step], [pl_step]: one
+   transition per atomic action of one thread; a schedule is an arbitrary list of labels and
+   [sl_exec]/[pl_exec] run it, skipping labels whose actor cannot move).  All theorems about the
+   concurrent helpers quantify over EVERY schedule, every number of threads and every input size. *)
+From Coq Require Import List Arith Bool NArith ZArith Permutation.
+Import ListNotations.
 From GixV.Base Require Import Bytes Outcome.
-From GixV.C51 Require Import Model.
-Example placeholder : True. Proof. exact I. Qed.
+From GixV.C51 Require Import Model ProofsOrder ProofsSlice ProofsPipe.
+
+(* ============================ the order-restoring iterator ================================ *)
+
+(* for EVERY arrival order of the sequence ids 0..n-1 the iterator yields the n values in sequence
+   order, then None, with an empty buffer; it never panics and never needs more than the given fuel *)
+Theorem in_order_yields_sequence : forall n (val : nat -> N) (arrivals : list nat),
+  Permutation arrivals (seq 0 n) ->
+  io_run (map (fun i => AOk i (val i)) arrivals)
+  = (map (fun i => YOk i (val i)) (seq 0 n), EEnd, mk_ios [] n false, []).
+Proof. exact L_in_order_yields_sequence. Qed.
+
+(* ... and once it returned None it keeps returning None *)
+Theorem in_order_end_is_final : forall n,
+  io_next_call (mk_ios [] n false) [] = NNone (mk_ios [] n false) [].
+Proof. exact L_in_order_end_is_final. Qed.
+
+(* for ANY input whatsoever (duplicates, holes, errors): the k-th value that comes out arrived with
+   sequence id k; an error is the last thing that comes out; the loop terminates *)
+Theorem in_order_any_arrivals_safe : forall arrivals ys e s r k,
+  io_run arrivals = (ys, e, s, r) ->
+  (forall c v, nth_error ys k = Some (YOk c v) -> c = k /\ In (AOk k v) arrivals) /\
+  (forall x, nth_error ys k = Some (YErr x) -> S k = length ys /\ In (AErr x) arrivals) /\
+  e <> EFuel.
+Proof. exact L_in_order_safe. Qed.
+
+Example in_order_example :
+  io_run [AOk 2 12; AOk 0 10; AOk 1 11] = ([YOk 0 10; YOk 1 11; YOk 2 12], EEnd, mk_ios [] 3 false, [])%N
+  /\ Permutation [2; 0; 1] (seq 0 3).
+Proof.
+  split; [reflexivity|].
+  apply perm_trans with [0; 2; 1]; [apply perm_swap | apply perm_skip, perm_swap].
+Qed.
+
+(* EagerIter: cutting into chunks and flattening again yields the input, in order; no chunk is
+   empty or longer than chunk_size *)
+Theorem eager_yields_input_in_order : forall chunk_size items, eager_items chunk_size items = items.
+Proof. exact L_eager_items. Qed.
+Theorem eager_chunk_sizes : forall chunk_size items, 0 < chunk_size ->
+  Forall (fun c => 0 < length c <= chunk_size) (eager_chunks chunk_size [] items).
+Proof. exact L_eager_chunk_sizes. Qed.
+
+(* ============================ in_parallel_with_slice ====================================== *)
+
+(* any threads, any schedule: the claimed indices are exactly 0..index-1, each claimed once, never
+   beyond the slice; consume is called at most once per index and only on claimed indices *)
+Theorem slice_each_index_claimed_once : forall fails n threads sched,
+  let s := sl_exec fails (sl_init n threads) sched in
+  NoDup (map snd (s_claims s)) /\ map snd (s_claims s) = rev (seq 0 (s_index s)) /\ s_index s <= n /\
+  NoDup (map snd (s_consumed s)) /\
+  forall t i, In (t, i) (s_consumed s) -> i < n /\ In (t, i) (s_claims s).
+Proof. exact L_each_index_claimed_once. Qed.
+
+(* if the call returned Ok and periodic() never asked to stop, every index 0..n-1 was consumed
+   exactly once, no consumed item failed, and there is one result per thread *)
+Theorem slice_all_consumed_on_success : forall fails n threads sched rs,
+  let s := sl_exec fails (sl_init n threads) sched in
+  0 < threads -> s_m s = MDone (SOk rs) -> s_interrupted s = false ->
+  Permutation (map snd (s_consumed s)) (seq 0 n) /\ length rs = threads /\
+  (forall t i, In (t, i) (s_consumed s) -> fails i = false).
+Proof. exact L_all_consumed_on_success. Qed.
+
+(* an Err result is the error of an item that was consumed and did fail; whenever the joining thread
+   is done the stop flag is set (so the watcher can leave) *)
+Theorem slice_result_sound : forall fails n threads sched,
+  let s := sl_exec fails (sl_init n threads) sched in
+  (forall e, s_m s = MDone (SErr e) -> fails e = true /\ exists t, In (t, e) (s_consumed s)) /\
+  (forall r, s_m s = MDone r -> s_stop s = true).
+Proof. exact L_result_sound. Qed.
+
+(* stop early: from ANY state in which stop_everything is set, whatever happens next, the only items
+   still consumed are those a worker had already passed its stop check for (at most one per worker) *)
+Theorem slice_stop_no_new_items : forall fails sched s, s_stop s = true ->
+  let s' := sl_exec fails s sched in
+  s_stop s' = true /\
+  forall t i, In (t, i) (s_consumed s') -> In (t, i) (s_consumed s) \/ holdsC (s_thr s) t i.
+Proof. exact L_stop_no_new_items. Qed.
+
+(* no deadlock: while anything is unfinished some thread can move ... *)
+Theorem slice_no_deadlock : forall fails s, sl_terminated s = false -> exists l s', sl_step fails s l = Some s'.
+Proof. exact L_progress. Qed.
+(* ... every move of a worker or of the joining thread decreases a natural-number measure, the
+   watcher's moves do not change it ... *)
+Theorem slice_measure_decreases : forall fails s l s', sl_step fails s l = Some s' ->
+  match l with
+  | LWatch _ => sl_measure s' = sl_measure s
+  | _ => sl_measure s' < sl_measure s
+  end.
+Proof. exact L_measure_step. Qed.
+(* ... and once stop is set the watcher is gone after at most three of its own moves *)
+Theorem slice_watcher_leaves : forall fails s b s', s_stop s = true -> sl_step fails s (LWatch b) = Some s' ->
+  w_rank (s_w s') < w_rank (s_w s) /\ s_stop s' = true.
+Proof. exact L_watcher_leaves. Qed.
+
+Example slice_example :
+  let s := sl_exec (fun _ => false) (sl_init 2 2)
+             [LThr 0; LThr 1; LThr 1; LThr 0; LThr 1; LThr 0; LThr 1; LThr 0; LThr 1; LThr 0; LThr 1; LThr 0;
+              LThr 0; LThr 1; LThr 0; LThr 1; LMain; LMain; LMain; LWatch true] in
+  s_m s = MDone (SOk [1; 1]) /\ s_interrupted s = false /\ sl_terminated s = true /\
+  map snd (s_consumed s) = [1; 0].
+Proof. vm_compute. repeat split. Qed.
+
+(* ============================ in_parallel / with_finalize / Stepwise ======================= *)
+
+(* any threads, any schedule, with or without finalize, whether or not the reducer fails or the
+   iterator is dropped: consume is never called more often on a value than it occurs in the input *)
+Theorem pipe_item_at_most_once : forall rfails with_fin threads input sched x,
+  cnt x (p_started (pl_exec rfails (pl_init with_fin threads input) sched)) <= cnt x input.
+Proof. exact L_pipe_at_most_once. Qed.
+
+(* stop early: from ANY state in which the reducing side no longer receives (its feed failed, or
+   the Stepwise is being dropped), at most capacity + #workers (= 2 * num_threads) further items
+   are ever started, under every schedule *)
+Theorem pipe_stop_bound : forall rfails sched s, receiving (p_m s) = false ->
+  length (p_started (pl_exec rfails s sched)) <= length (p_started s) + p_cap s + length (p_k s).
+Proof. exact L_pipe_stop_bound. Qed.
+
+(* dropping terminates: every step decreases a natural-number measure (no infinite schedule) ... *)
+Theorem pipe_measure_decreases : forall rfails s l s', pl_step rfails s l = Some s' -> pl_measure s' < pl_measure s.
+Proof. exact L_pipe_measure. Qed.
+(* ... and with the receiver gone, some worker or the feeder can move until all of them are done
+   (no thread stays blocked on a channel) *)
+Theorem pipe_drop_terminates_progress : forall rfails s,
+  p_rx s = false -> p_cap s = length (p_k s) ->
+  (all_workers_done s && match p_f s with FDone => true | _ => false end) = false ->
+  exists l s', (l = LFeed \/ exists t, l = LWork t) /\ pl_step rfails s l = Some s'.
+Proof. exact L_pipe_progress_after_drop. Qed.
+(* (capacity = number of workers and "receiver gone" are preserved by every schedule) *)
+Theorem pipe_shape_preserved : forall rfails sched s,
+  p_cap (pl_exec rfails s sched) = p_cap s /\ length (p_k (pl_exec rfails s sched)) = length (p_k s)
+  /\ (p_rx s = false -> p_rx (pl_exec rfails s sched) = false).
+Proof. exact L_pipe_shape_exec. Qed.
+
+(* NOT proved (tested only, see NOTES.md): on success every result reaches the reducer. *)
+Definition pipe_all_delivered_full_statement : Prop :=
+  forall rfails with_fin threads input sched,
+    0 < threads ->
+    let s := pl_exec rfails (pl_init with_fin threads input) sched in
+    p_m s = PDone POk ->
+    Permutation (p_started s) input /\ Permutation (res_items (p_fed s)) input.
+
+Example pipe_example :
+  let s := pl_exec (fun _ => false) (pl_init false 1 [7; 8])
+             [LFeed; LFeed; LWork 0; LWork 0; LWork 0; LRed; LRed; LFeed; LFeed; LFeed; LWork 0; LWork 0; LWork 0;
+              LWork 0; LRed; LRed; LRed; LRed] in
+  p_m s = PDone POk /\ p_fed s = [RItem 8; RItem 7] /\ pl_terminated s = true.
+Proof. vm_compute. repeat split. Qed.
